@@ -175,3 +175,149 @@ def generate(repo, out):
 if __name__ == "__main__":
     import sys
     print(extract(pathlib.Path(sys.argv[1]) / "src/pyuncertainnumber/pba/operation.py"))
+
+
+# ---- the corner rules: perfect_op, opposite_op, independent_op -------------------------------------------------
+def _corner_fn(tree, name):
+    """recognised form:
+        def <name>(x, y, op=...):
+            [docstring]
+            [y_left, y_right = np.flip(y.left), np.flip(y.right)]                      # opposite_op
+            corners = [op(x.<b>, <yb>), … four …]                                       # perfect / opposite
+          | c1 = vectorized_cartesian_op(x.<b>, y.<b>, op) … four …                     # independent
+            nleft = np.minimum.reduce(corners | [c1, c2, c3, c4])   | np.sort(np.minimum.reduce(…))
+            nright = np.maximum.reduce(…)                           | np.sort(np.maximum.reduce(…))
+            [nleft.sort()] [nright.sort()]
+            return nleft, nright
+    """
+    fn = next((f for f in tree.body if isinstance(f, ast.FunctionDef) and f.name == name), None)
+    if fn is None:
+        raise Unavailable(f"{name} not found")
+    args = [a.arg for a in fn.args.args]
+    if len(args) != 3:
+        raise Unavailable(f"{name} signature {args}")
+    X, Y, OP = args
+    body = list(fn.body)
+    if body and isinstance(body[0], ast.Expr) and isinstance(body[0].value, ast.Constant) and isinstance(body[0].value.value, str):
+        body = body[1:]
+    alias, flip, cols, named, out, sorts, ret = {}, False, None, {}, {}, [], None
+
+    def bound(e, who):
+        if isinstance(e, ast.Attribute) and e.attr in ("left", "right") and isinstance(e.value, ast.Name) and e.value.id == who:
+            return e.attr
+        if who == Y and isinstance(e, ast.Name) and e.id in alias:
+            return alias[e.id]
+        raise Unavailable(f"{name}: operand {ast.unparse(e)} is not a bound of {who}")
+
+    def corner(e, grid):
+        if grid:
+            if not (isinstance(e, ast.Call) and isinstance(e.func, ast.Name) and e.func.id == "vectorized_cartesian_op"
+                    and len(e.args) == 3 and isinstance(e.args[2], ast.Name) and e.args[2].id == OP and not e.keywords):
+                raise Unavailable(f"{name}: {ast.unparse(e)}")
+            return (bound(e.args[0], X), bound(e.args[1], Y))
+        if not (isinstance(e, ast.Call) and isinstance(e.func, ast.Name) and e.func.id == OP and len(e.args) == 2 and not e.keywords):
+            raise Unavailable(f"{name}: {ast.unparse(e)}")
+        return (bound(e.args[0], X), bound(e.args[1], Y))
+
+    def reduction(e):
+        """-> (red, sorted?, list-of-corners)"""
+        srt = False
+        if isinstance(e, ast.Call) and _is_np(e, "sort") and len(e.args) == 1 and not e.keywords:
+            srt, e = True, e.args[0]
+        if not (isinstance(e, ast.Call) and isinstance(e.func, ast.Attribute) and e.func.attr == "reduce" and len(e.args) == 1
+                and not e.keywords and isinstance(e.func.value, ast.Attribute) and e.func.value.attr in ("minimum", "maximum")
+                and isinstance(e.func.value.value, ast.Name) and e.func.value.value.id in ("np", "numpy")):
+            raise Unavailable(f"{name}: reduction {ast.unparse(e)[:60]}")
+        red = "min" if e.func.value.attr == "minimum" else "max"
+        a = e.args[0]
+        if isinstance(a, ast.Name) and cols is not None and a.id == cols[0]:
+            cs = cols[1]
+        elif isinstance(a, ast.List) and all(isinstance(v, ast.Name) and v.id in named for v in a.elts):
+            cs = [named[v.id] for v in a.elts]
+        else:
+            raise Unavailable(f"{name}: reduced object {ast.unparse(a)[:60]}")
+        if len(cs) != 4:
+            raise Unavailable(f"{name}: {len(cs)} corners")
+        return red, srt, cs
+
+    grid = None
+    for st in body:
+        if isinstance(st, ast.Assign) and len(st.targets) == 1:
+            t, v = st.targets[0], st.value
+            if isinstance(t, ast.Tuple) and isinstance(v, ast.Tuple) and len(t.elts) == len(v.elts) == 2 and not out:
+                for tn, ve in zip(t.elts, v.elts):
+                    if not (isinstance(tn, ast.Name) and isinstance(ve, ast.Call) and _is_np(ve, "flip") and len(ve.args) == 1):
+                        raise Unavailable(f"{name}: {ast.unparse(st)}")
+                    alias[tn.id] = bound(ve.args[0], Y)
+                flip = True
+                continue
+            if isinstance(t, ast.Name) and isinstance(v, ast.List) and not out and cols is None:
+                grid = False
+                cols = (t.id, [corner(e, False) for e in v.elts])
+                continue
+            if isinstance(t, ast.Name) and isinstance(v, ast.Call) and isinstance(v.func, ast.Name) and v.func.id == "vectorized_cartesian_op" and not out:
+                grid = True
+                named[t.id] = corner(v, True)
+                continue
+            if isinstance(t, ast.Name) and t.id not in out:
+                out[t.id] = reduction(v)
+                continue
+            raise Unavailable(f"{name}: unexpected assignment {ast.unparse(st)[:70]}")
+        if isinstance(st, ast.Expr) and isinstance(st.value, ast.Call) and isinstance(st.value.func, ast.Attribute) \
+                and st.value.func.attr == "sort" and isinstance(st.value.func.value, ast.Name) and not st.value.args and ret is None:
+            sorts.append(st.value.func.value.id)
+            continue
+        if isinstance(st, ast.Return) and isinstance(st.value, ast.Tuple) and len(st.value.elts) == 2 \
+                and all(isinstance(e, ast.Name) for e in st.value.elts):
+            ret = [e.id for e in st.value.elts]
+            continue
+        raise Unavailable(f"{name}: unexpected statement {ast.unparse(st)[:70]}")
+    if ret is None or set(ret) != set(out) or len(out) != 2 or grid is None:
+        raise Unavailable(f"{name}: skeleton not recognised")
+    (rl, sl, cl), (rr, sr, cr) = out[ret[0]], out[ret[1]]
+    if cl != cr:
+        raise Unavailable(f"{name}: the two reductions read different corner lists")
+    return {"corners": cl, "flip": flip, "grid": grid, "redLeft": rl, "redRight": rr,
+            "sortLeft": sl or ret[0] in sorts, "sortRight": sr or ret[1] in sorts}
+
+
+def _cartesian_ok(tree):
+    """vectorized_cartesian_op(a, b, op) must be `return op(a[:, np.newaxis], b).ravel()` (a outer, b inner)"""
+    fn = next((f for f in tree.body if isinstance(f, ast.FunctionDef) and f.name == "vectorized_cartesian_op"), None)
+    if fn is None:
+        raise Unavailable("vectorized_cartesian_op not found")
+    a, b, o = [x.arg for x in fn.args.args]
+    rets = [s for s in fn.body if isinstance(s, ast.Return)]
+    want = f"{o}({a}[:, np.newaxis], {b}).ravel()"
+    if len(rets) != 1 or ast.unparse(rets[0].value).replace("numpy.", "np.") != want:
+        raise Unavailable("vectorized_cartesian_op: not " + want)
+
+
+def extract_corners(path):
+    tree = ast.parse(pathlib.Path(path).read_text())
+    res = {n: _corner_fn(tree, n) for n in ("perfect_op", "opposite_op", "independent_op")}
+    if res["independent_op"]["grid"]:
+        _cartesian_ok(tree)
+    return res
+
+
+def _lean_corner(c):
+    pr = lambda p: "(.%s, .%s)" % p
+    b = lambda v: "true" if v else "false"
+    cs = c["corners"]
+    return ("{ c1 := %s, c2 := %s, c3 := %s, c4 := %s, flipY := %s, grid := %s, redLeft := .%s, redRight := .%s, sortLeft := %s, sortRight := %s }"
+            % (pr(cs[0]), pr(cs[1]), pr(cs[2]), pr(cs[3]), b(c["flip"]), b(c["grid"]), c["redLeft"], c["redRight"], b(c["sortLeft"]), b(c["sortRight"])))
+
+
+def generate_corners(repo, out):
+    res = extract_corners(pathlib.Path(repo) / "src/pyuncertainnumber/pba/operation.py")
+    text = ("import Pun.Model.FrechetInterp\n"
+            "/-! GENERATED by harness/pv/translator/frechet.py from src/pyuncertainnumber/pba/operation.py "
+            "(perfect_op, opposite_op, independent_op) — do not edit -/\n"
+            "namespace Pun.Gen.Corners\nopen Pun.FrechetInterp\n\n"
+            "def perfectSpec : CornerSpec :=\n  %s\n\ndef oppositeSpec : CornerSpec :=\n  %s\n\ndef independentSpec : CornerSpec :=\n  %s\n\n"
+            "end Pun.Gen.Corners\n" % tuple(_lean_corner(res[n]) for n in ("perfect_op", "opposite_op", "independent_op")))
+    out = pathlib.Path(out)
+    if not out.exists() or out.read_text() != text:
+        out.write_text(text)
+    return "ok: perfect_op, opposite_op, independent_op (4 corners, flip, grid, reductions, sorts each)"
